@@ -31,6 +31,9 @@ pub enum Op {
     /// add_assertion_envelope(self.subject()): accepted iff the subject is an assertion (possibly
     /// decorated) or obscured - the subject and an assertion element then share one digest
     AddSubjectItself,
+    /// replace_subject with a new subject that itself carries assertion #i of the receiver (or with the
+    /// receiver itself): the shared assertion is held once afterwards
+    ReplaceSubjectSharing(Option<usize>),
     AddDup(usize),
     AddDupObscured(usize, Obs),
     Remove(usize),
@@ -70,6 +73,7 @@ impl Op {
             Op::ReplaceSame(..) => "replace-by-equal",
             Op::ImportOpen(..) => "import-and-open-noncanonical",
             Op::AddSubjectItself => "add-subject-as-assertion",
+            Op::ReplaceSubjectSharing(_) => "replace-subject-sharing-an-assertion",
             Op::AddDup(_) => "add-duplicate",
             Op::AddDupObscured(..) => "add-duplicate-obscured",
             Op::Remove(_) => "remove",
@@ -184,6 +188,9 @@ pub fn gen_op(src: &mut Src, m: &M) -> Op {
     if first >= 238 {
         let kind = src.below(2) as u8;
         return Op::Import(kind, if kind == 0 { src.below(7) as u8 } else { src.below(2) as u8 });
+    }
+    if first >= 222 && first < 226 {
+        return Op::ReplaceSubjectSharing(if n_as > 0 && first % 2 == 0 { Some(src.below(n_as)) } else { None });
     }
     if first >= 226 {
         return match first {
@@ -612,6 +619,25 @@ pub fn apply(e: &Envelope, m: &M, op: &Op) -> Applied {
                 }
             }
             Applied { result: last, predicted: Predicted::Error }
+        }
+        Op::ReplaceSubjectSharing(which) => {
+            let (ns, nm): (Envelope, M) = match which {
+                Some(i) => {
+                    let a = e.assertions()[*i].clone();
+                    let am = m.assertions().iter().find(|x| bridge::dig(&x.digest()) == a.digest().into_owned()).cloned();
+                    match am {
+                        Some(am) => (Envelope::new("replacement").add_assertion("own", 1).add_assertion_envelope(a).unwrap(), M::text("replacement").add(M::assertion(M::text("own"), M::leaf_item(&crate::cbor::Item::U(1)))).add(am)),
+                        None => (e.clone(), m.clone()),
+                    }
+                }
+                None => (e.clone(), m.clone()),
+            };
+            // documented as: the assertions of the receiver re-added to the new subject
+            let mut pm = nm;
+            for a in m.sorted_assertions() {
+                pm = pm.add(a.clone());
+            }
+            Applied { result: ok(e.replace_subject(ns)), predicted: Predicted::Exactly(pm) }
         }
         Op::AddSubjectItself => {
             let subj = e.subject();
